@@ -56,6 +56,9 @@ PREFIXES = ['none', 'riemann', 'riemann_evicted', 'weyl_then_riemann',
 POST = ['weyl', 'symmetries', 'eb_n', 'eb_u', 'tetrad', 'psi', 'invariants']
 
 
+warmup = cc.warmup
+
+
 def generate(rng, tier):
     cfg = coresim.gen_config(rng, 'C10')
     g = rng.child('c10')
